@@ -169,6 +169,18 @@ type withSlice struct {
 	N int
 }
 
+type myErr int
+
+func (e myErr) Error() string { return fmt.Sprint("myErr ", int(e)) }
+
+type strErr string
+
+func (e strErr) Error() string { return string(e) }
+
+type ptrErr struct{ N int }
+
+func (e *ptrErr) Error() string { return "ptrErr" }
+
 const badClass = -99 // a value the codec does not know: shows up as a disagreement
 
 var idCodec = codec[int]{enc: func(v int) int { return v }, dec: func(v int) int { return v }}
@@ -200,34 +212,91 @@ func otherKinds(rng *vhlib.Rng) []kind {
 			return p.A
 		},
 	}
+	// any: the zero value is the nil interface (class 0); the other classes mix non-nil interfaces holding zero-ish
+	// dynamic values (any(0), a nil *T inside a non-nil interface) with dynamic types that == cannot compare
 	dyn := codec[any]{
 		enc: func(v int) any {
-			if v == 0 {
-				return nil
-			}
-			switch ((v % 3) + 3) % 3 { // the representation is part of the content: a function of the class; always freshly allocated
+			switch v {
 			case 0:
-				return []int{v, v + 1}
+				return nil
 			case 1:
-				return withSlice{S: []int{v}, N: v}
+				return 0
+			case 2:
+				return []int{2, 3}
+			case 3:
+				return (*T)(nil)
+			case 4:
+				return map[string]int{"k": 4}
 			}
-			return map[string]int{"k": v}
+			return withSlice{S: []int{v}, N: v}
 		},
 		dec: func(x any) int {
 			switch t := x.(type) {
 			case nil:
 				return 0
+			case int:
+				if t == 0 {
+					return 1
+				}
 			case []int:
-				if len(t) == 2 && t[1] == t[0]+1 {
-					return t[0]
+				if len(t) == 2 && t[0] == 2 && t[1] == 3 {
+					return 2
+				}
+			case *T:
+				if t == nil {
+					return 3
+				}
+			case map[string]int:
+				if len(t) == 1 && t["k"] == 4 {
+					return 4
 				}
 			case withSlice:
 				if len(t.S) == 1 && t.S[0] == t.N {
 					return t.N
 				}
-			case map[string]int:
-				if len(t) == 1 {
-					return t["k"]
+			}
+			return badClass
+		},
+	}
+	// error: an interface element type with methods; nil error = class 0, then errors whose dynamic value is a zero
+	// (myErr(0), strErr("")), a nil *ptrErr inside a non-nil error, and ordinary ones
+	errc := codec[error]{
+		enc: func(v int) error {
+			switch v {
+			case 0:
+				return nil
+			case 1:
+				return myErr(0)
+			case 2:
+				return strErr("")
+			case 3:
+				return (*ptrErr)(nil)
+			case 4:
+				return &ptrErr{N: 4}
+			}
+			return myErr(v)
+		},
+		dec: func(e error) int {
+			switch t := e.(type) {
+			case nil:
+				return 0
+			case myErr:
+				if t == 0 {
+					return 1
+				}
+				if t > 4 || t < 0 {
+					return int(t)
+				}
+			case strErr:
+				if t == "" {
+					return 2
+				}
+			case *ptrErr:
+				if t == nil {
+					return 3
+				}
+				if t.N == 4 {
+					return 4
 				}
 			}
 			return badClass
@@ -253,6 +322,7 @@ func otherKinds(rng *vhlib.Rng) []kind {
 	var ks []kind
 	ks = append(ks, kindsOf("*T", ptr)...)
 	ks = append(ks, kindsOf("any", dyn)...)
+	ks = append(ks, kindsOf("error", errc)...)
 	ks = append(ks, kindsOf("string", str)...)
 	return ks
 }
